@@ -79,6 +79,43 @@ pub fn run(n: u64, seed: u64) -> i32 {
             if lex(&x, &y) != val(&x).cmp(val(&y)) { bad += 1; report("lex", &[x.hi, x.lo, y.hi, y.lo]); }
         }
     }
+    // rounding of normalised pairs: pair formulas (Layer 2) against Fix (Layer 1)
+    {
+        use super::c08::*;
+        let mut pairs = 0u64;
+        for i in 0..n {
+            let e = (rng.next() % 130) as i32 - 10;
+            let mbits = rng.next() % 53;
+            let m = (rng.next() | (1u64 << 63)) >> (63 - mbits.min(52));
+            let mut h = (m as f64) * 2f64.powi(e - mbits as i32);
+            if rng.next() % 2 == 0 { h = -h; }
+            if i % 5 == 0 { h = (h * 2.0).round() / 2.0; }
+            let u = f64::from_bits((h.abs().to_bits() & !((1u64 << 52) - 1))) * 2f64.powi(-53); // half ulp of the binade
+            let l = match rng.next() % 8 {
+                0 => 0.0,
+                1 => u, 2 => -u,
+                3 => { let t = (rng.next() % 4096) as f64 / 8.0; if t <= u { t } else { u / 4.0 } }
+                4 => { let t = (rng.next() % 4096) as f64 / 8.0; if t <= u { -t } else { -u / 4.0 } }
+                5 => u * ((rng.next() % 1024) as f64 / 1024.0),
+                6 => -u * ((rng.next() % 1024) as f64 / 1024.0),
+                _ => related(&mut rng, u / 2.0),
+            };
+            if !valid_def(h, l) { continue; }
+            pairs += 1;
+            let v = fx(h).add(fx(l));
+            let chk = |name: &str, pq: (f64, f64), want: Fix| -> bool {
+                let ok = pq.0.is_finite() && pq.1.is_finite() && fx(pq.0).add(fx(pq.1)).eq(want);
+                if !ok { std::eprintln!("SPEC-SELFTEST-FAIL {} h={:e} l={:e} pq={:?}", name, h, l, pq); }
+                ok
+            };
+            if !chk("floor_pair", floor_pair(h, l), v.floor()) { bad += 1; }
+            if !chk("ceil_pair", ceil_pair(h, l), v.ceil()) { bad += 1; }
+            if !chk("trunc_pair", trunc_pair(h, l), v.trunc()) { bad += 1; }
+            if !chk("round_pair", round_pair(h, l), v.round()) { bad += 1; }
+            if !chk("fract_pair", fract_pair(h, l), v.sub(v.trunc())) { bad += 1; }
+        }
+        checked += pairs;
+    }
     // Fix against integer arithmetic on small cases
     for i in -2000i64..2000 {
         for sh in [0i32, 1, 3, 7] {
